@@ -165,7 +165,29 @@ def restore_vc(method_node, alias):
                 cur = (lambda p, m_, v: (lambda x, y: z3.If(m_(x, y), v, p(x, y))))(prev, mk, val)
                 events += 1
                 continue
+            # alias[alias <op> const] = v   /   alias[np.isinf(alias)] = v      (inline mask over the current contents)
             if isinstance(t, ast.Subscript) and isinstance(t.value, ast.Name) and t.value.id == alias:
+                sl, mk = t.slice, None
+                snap = cur
+                if isinstance(sl, ast.Compare) and len(sl.ops) == 1 and isinstance(sl.left, ast.Name) and sl.left.id == alias:
+                    c = sl.comparators[0]
+                    cv = INF if _dotted(c) == "np.inf" else (z3.RealVal(c.value) if isinstance(c, ast.Constant)
+                                                             and isinstance(c.value, (int, float)) else None)
+                    opf = {ast.Eq: lambda a, b: a == b, ast.NotEq: lambda a, b: a != b, ast.Lt: lambda a, b: a < b,
+                           ast.LtE: lambda a, b: a <= b, ast.Gt: lambda a, b: a > b, ast.GtE: lambda a, b: a >= b}.get(type(sl.ops[0]))
+                    if cv is not None and opf is not None:
+                        mk = (lambda s_, f_, c_: (lambda x, y: f_(s_(x, y), c_)))(snap, opf, cv)
+                elif isinstance(sl, ast.Call) and _dotted(sl.func) == "np.isinf" and sl.args and \
+                        isinstance(sl.args[0], ast.Name) and sl.args[0].id == alias:
+                    mk = (lambda s_: (lambda x, y: s_(x, y) == INF))(snap)
+                if mk is not None:
+                    val = INF if (_dotted(st.value) == "np.inf") else (
+                        z3.RealVal(st.value.value) if isinstance(st.value, ast.Constant) and isinstance(st.value.value, (int, float))
+                        else z3.Real(f"v{events}"))
+                    prev = cur
+                    cur = (lambda p, m_, v: (lambda x, y: z3.If(m_(x, y), v, p(x, y))))(prev, mk, val)
+                    events += 1
+                    continue
                 return "undecided", f"unrecognised in-place store at line {st.lineno}"
         if isinstance(st, ast.Expr) and isinstance(st.value, ast.Call) and _dotted(st.value.func) == "np.fill_diagonal" \
                 and st.value.args and isinstance(st.value.args[0], ast.Name) and st.value.args[0].id == alias:
@@ -180,6 +202,7 @@ def restore_vc(method_node, alias):
         return "undecided", "no recognised edit"
     s = z3.Solver()
     s.set("timeout", 5000)
+    s.add(INF > 1000000)
     if assumed:
         k = z3.Int("k")
         s.add(z3.ForAll([k], a0(k, k) == 0))
